@@ -218,12 +218,13 @@ impl Profile {
             "pos" => {
                 p.name = "pos";
                 p.p_sibling = 30;
+                p.p_shared_prefix = 50;
+                p.p_memoize = 70;
                 p.p_position = 150;
                 p.w_field = 26;
                 p.k_string = 5;
                 p.k_enum = 5;
                 p.p_unicode = 90;
-                p.p_memoize = 30;
                 p.w_include = 4;
                 p
             }
